@@ -130,6 +130,17 @@ Theorem C09_spec_nonvacuous :
            mut_object_nosub; mut_dup_var; mut_undef_var; mut_unused_var; mut_unknown_directive;
            mut_conflict; mut_var_non_input] = true.
 Proof. exact spec_nonvacuous. Qed.
+(* per-operation variable rules through shared fragments: an accepting validator is verdict 4 *)
+Theorem C09_shared_fragment_verdicts :
+  spec_valid w_schema w_shared_defined 50 = true /\
+  check_c09 w_schema w_shared_defined [] (Some 31) 50 0 = 0 /\
+  forallb (fun d => negb (spec_valid w_schema d 50) &&
+                    (known_class w_schema d [] (Some 31) 50 forwards_input_value_gen =? 0) &&
+                    (check_c09 w_schema d [] (Some 31) 50 0 =? 4) &&
+                    (check_c09 w_schema d [] (Some 32) 50 0 =? 4) &&
+                    (check_c09 w_schema d [] (Some 31) 50 1 =? 0))
+          [w_shared_undefined; w_shared_transitive; w_shared_unused] = true.
+Proof. exact shared_fragment_verdicts. Qed.
 Theorem C09_usage_nonvacuous :
   exists vd vt lt,
     var_ty w_schema vd = Some vt /\ vd_default vd <> Some VNull /\
@@ -170,4 +181,5 @@ Print Assumptions C09_subscription_refuted.
 Print Assumptions C09_typename_refuted.
 Print Assumptions C09_strict_decomposition.
 Print Assumptions C09_spec_nonvacuous.
+Print Assumptions C09_shared_fragment_verdicts.
 Print Assumptions C09_usage_nonvacuous.
